@@ -122,6 +122,13 @@ let spec_accept (ops : (string * string) list) : bool list * (string * string) l
 let info_bin () = Filename.concat (try Sys.getenv "VERIF_BUILD" with Not_found -> "/verif/build") "bin/mtbl_info"
 
 (* parse `mtbl_info` output (LC_ALL=C) into the same 10-slot layout as the accessors (version slot = -1) *)
+(* the raw lines of mtbl_info (C locale) *)
+let run_mtbl_info_raw path : string list =
+  let cmd = Printf.sprintf "LC_ALL=C %s %s 2>/dev/null" (Filename.quote (info_bin ())) (Filename.quote path) in
+  let ic = Unix.open_process_in cmd in
+  let lines = ref [] in
+  (try while true do lines := input_line ic :: !lines done with End_of_file -> ());
+  ignore (Unix.close_process_in ic); List.rev !lines
 let run_mtbl_info path : (string * string) list =
   let cmd = Printf.sprintf "LC_ALL=C %s %s 2>/dev/null" (Filename.quote (info_bin ())) (Filename.quote path) in
   let ic = Unix.open_process_in cmd in
@@ -250,6 +257,22 @@ let check_case acc ~klass ~with_info (c : wcfg) (ops : (string * string) list) =
         if with_info && Int64.compare c.prefix 65536L < 0 then begin
           let info = run_mtbl_info path in
           bump acc "mtbl_info_runs";
+          (* the model of print_info (model/Tools.v, T10d_mtbl_info) on the trailer as decoded independently: every
+             statistics line of the tool must begin with (percentage lines) or be (the others) the model's line *)
+          let raw = run_mtbl_info_raw path in
+          let mm = { m_index_block_offset = tr.tr_index_block_offset; m_data_block_size = tr.tr_data_block_size;
+                     m_compression_algorithm = tr.tr_compression_algorithm; m_count_entries = tr.tr_count_entries;
+                     m_count_data_blocks = tr.tr_count_data_blocks; m_bytes_data_blocks = tr.tr_bytes_data_blocks;
+                     m_bytes_index_block = tr.tr_bytes_index_block; m_bytes_keys = tr.tr_bytes_keys; m_bytes_values = tr.tr_bytes_values } in
+          let im = info_model mm in
+          let has_prefix p l = String.length l >= String.length p && String.sub l 0 (String.length p) = p in
+          List.iter (fun (line, exact) ->
+            let ml = string_of_nl line in
+            if not (List.exists (fun l -> if exact then l = ml else has_prefix (ml ^ " (") l) raw) then
+              fail acc ~kind:"model_mismatch" ~what:"[C10] mtbl_info output differs from the model of the tool (T10d_mtbl_info)"
+                (JO [ "case", casej (); "model_line", JS ml ]))
+            [ (im.io_index_block_offset, true); (im.io_index_bytes, false); (im.io_data_block_bytes, false); (im.io_data_block_size, true);
+              (im.io_data_block_count, true); (im.io_entry_count, true); (im.io_key_bytes, true); (im.io_value_bytes, true); (im.io_compression, true) ];
           let expect = [ "index block offset:", Printf.sprintf "%Lu" (u64_of_n tr.tr_index_block_offset);
                          "index bytes:", Printf.sprintf "%Lu" (u64_of_n tr.tr_bytes_index_block);
                          "data block bytes", Printf.sprintf "%Lu" (u64_of_n tr.tr_bytes_data_blocks);
